@@ -357,6 +357,26 @@ func c12(c *Ctx) {
 			}
 		}
 		r.Check("doLookup:answer-is-for-this-source", okSend, sel.Pos(), "InstanceInfo{IP: ip, Instance: instances[ip]} with ip the loop element and instances the provider's result (a missing entry yields nil: 'nothing found')")
+		// the provider's result is only read while the answers are built (a source can be in the batch twice:
+		// both occurrences get the instance)
+		changed := ""
+		eachInstr(ld, func(in ssa.Instruction) {
+			isRes := func(v ssa.Value) bool {
+				ex, ok := v.(*ssa.Extract)
+				return ok && ex.Tuple == ssa.Value(inst) && ex.Index == 0
+			}
+			switch x := in.(type) {
+			case *ssa.MapUpdate:
+				if isRes(x.Map) {
+					changed = "an entry is written"
+				}
+			case ssa.CallInstruction:
+				if isCall(x, "builtin delete", "builtin clear") && len(x.Common().Args) > 0 && isRes(x.Common().Args[0]) {
+					changed = "an entry is removed"
+				}
+			}
+		})
+		r.Check("doLookup:result-only-read", changed == "", ld.Pos(), "the provider's result map is not modified while the batch is answered "+changed)
 		// results are processed even when the provider returned an error: no return between the call and the loop
 		okErr := true
 		eachInstr(ld, func(in ssa.Instruction) {
@@ -553,11 +573,41 @@ func c12(c *Ctx) {
 		}
 		r.Check("store:unconditional", all(mu.Block()), mu.Pos(), "cache[info.IP] = newHolder on every path")
 		r.Check("store:key", strings.HasSuffix(pathOf(mu.Key), ".IP"), mu.Pos(), "keyed by info.IP")
-		holder, _ := mu.Value.(*ssa.Alloc)
-		if holder == nil {
+		// the stored holder: one fresh entry, or one fresh entry per branch joined by phis (a holder built
+		// where no entry exists has nothing to inherit; every other one must inherit)
+		var holders []*ssa.Alloc
+		okHolders := true
+		var walkHolder func(v ssa.Value, seen map[ssa.Value]bool)
+		walkHolder = func(v ssa.Value, seen map[ssa.Value]bool) {
+			if seen[v] {
+				return
+			}
+			seen[v] = true
+			switch x := v.(type) {
+			case *ssa.Alloc:
+				holders = append(holders, x)
+			case *ssa.Phi:
+				for _, e := range x.Edges {
+					walkHolder(e, seen)
+				}
+			default:
+				okHolders = false
+			}
+		}
+		walkHolder(mu.Value, map[ssa.Value]bool{})
+		isCur := func(v ssa.Value) bool { return strings.HasSuffix(pathOf(v), "cache[info.IP]") }
+		var inheriting []*ssa.Alloc
+		for _, h := range holders {
+			if len(holders) > 1 && knownNil(factsAt(h.Block()), isCur) {
+				continue
+			}
+			inheriting = append(inheriting, h)
+		}
+		if !okHolders || len(inheriting) != 1 {
 			r.Fail("store:value", mu.Pos(), "stored value is "+pathOf(mu.Value))
 			return
 		}
+		holder := inheriting[0]
 		// carry-over of the old instance
 		okCarry := false
 		for _, st := range storesIn(hi) {
@@ -1092,6 +1142,37 @@ func evictionList(dr *ssa.Function) string {
 			ph, _ = b.X.(*ssa.Phi)
 		}
 		if ph == nil || !loopCoversSlice(ph, ia.X) {
+			continue
+		}
+		// the slice covered is the whole list that was collected: nil, grown by append, never cut down
+		whole := true
+		seen := map[ssa.Value]bool{}
+		var leaf func(v ssa.Value)
+		leaf = func(v ssa.Value) {
+			if seen[v] {
+				return
+			}
+			seen[v] = true
+			switch x := v.(type) {
+			case *ssa.Phi:
+				for _, e := range x.Edges {
+					leaf(e)
+				}
+			case *ssa.Const:
+				whole = whole && x.Value == nil
+			case *ssa.Call:
+				if isCall(x, "builtin append") {
+					leaf(x.Call.Args[0])
+				} else {
+					whole = false
+				}
+			case *ssa.MakeSlice:
+			default:
+				whole = false
+			}
+		}
+		leaf(ia.X)
+		if !whole {
 			continue
 		}
 		out = pathOf(ia.X)
